@@ -234,8 +234,16 @@ func (x *Exec) formatUint(t *smt.Term, pad int, zero bool) StrV {
 		}
 		return StrV{IsConst: true, S: fmt.Sprintf(f, c)}
 	}
-	if x.Branch(B.Lt(t, B.Int(0))) {
+	if !(t.Lo != nil && t.Lo.Sign() >= 0) && x.Branch(B.Lt(t, B.Int(0))) {
 		x.Unsupported("formatting a negative symbolic integer")
+	}
+	// zero padding at least as wide as the value can get: fixed width, no case split
+	if zero && pad > 0 && pad <= 18 && t.Lo != nil && t.Lo.Sign() >= 0 && t.Hi != nil && t.Hi.Cmp(pow10(pad)) < 0 {
+		bs := make([]*smt.Term, pad)
+		for i := 0; i < pad; i++ {
+			bs[i] = B.Add(B.Mod(B.Div(t, B.BigInt(pow10(pad-1-i))), B.Int(10)), B.Int('0'))
+		}
+		return x.normStr(bs)
 	}
 	// digit count k: 10^(k-1) <= t < 10^k
 	maxDigits := 20
@@ -248,7 +256,10 @@ func (x *Exec) formatUint(t *smt.Term, pad int, zero bool) StrV {
 		} else {
 			lim = B.BigInt(pow10(k))
 		}
-		if x.Branch(B.Lt(t, lim)) {
+		if t.Hi != nil && t.Hi.Cmp(pow10(k)) < 0 {
+			break // the interval decides: at most k digits
+		}
+		if !(t.Lo != nil && t.Lo.Cmp(pow10(k)) >= 0) && x.Branch(B.Lt(t, lim)) {
 			break
 		}
 		if k < 18 {
